@@ -1,16 +1,378 @@
 package main
 
 import (
+	"context"
+	"encoding/hex"
+	"fmt"
+	"net"
+	"net/netip"
+	"strings"
+	"sync"
+	"time"
+
 	"ssvharness/internal/common"
+
+	"github.com/database64128/shadowsocks-go/conn"
+	"github.com/database64128/shadowsocks-go/direct"
+	"github.com/database64128/shadowsocks-go/dns"
+	"go.uber.org/zap"
 )
 
-// placeholder until the real-time UDP engine is written
-type UDPCase struct {
-	Engine string `json:"engine"`
+// Engine "dnsudp": the UDP path of the resolver on loopback, in real time. A fake server owns two
+// sockets: the configured server address and another one ("wrong source"). When it has seen both
+// queries it sends the scripted datagrams in order, from either socket. Scripts are built so that
+// the receive loop either ends by itself (both answered / truncated / unusable response: class A,
+// generous 8 s context) or cannot end but by the timeout (only wrong-source datagrams and at most one
+// family answered: class B, 1.5 s context; class C = the real 20 s lookup timeout, thorough tier).
+// Compared with the model: ok/fail, addresses, and which queries each TCP attempt carried. A
+// mismatch is re-run once before it counts (real time).
+
+type UDPEvSpec struct {
+	From string `json:"from"` // server | other
+	Hex  string `json:"hex"`
 }
 
-func genUDPCase(r *common.Rng) UDPCase { return UDPCase{Engine: "dnsudp"} }
+type UDPCase struct {
+	Engine    string      `json:"engine"`
+	Class     string      `json:"class"` // A | B | C
+	Name      string      `json:"name"`
+	Events    []UDPEvSpec `json:"events"`
+	Conns     []ConnSpec  `json:"conns"`
+	TimeoutMs int         `json:"timeout_ms"`
+}
+
+type udpObs struct {
+	line     string
+	a, aaaa  []string
+	queries  []seenQuery
+	badQuery string
+}
+
+func runUDPImpl(c UDPCase) (o udpObs, panicked any) {
+	panicked = common.Safely(func() {
+		s1, err := net.ListenUDP("udp4", &net.UDPAddr{IP: net.IPv4(127, 0, 0, 1)})
+		if err != nil {
+			panic(err)
+		}
+		defer s1.Close()
+		s2, err := net.ListenUDP("udp4", &net.UDPAddr{IP: net.IPv4(127, 0, 0, 1)})
+		if err != nil {
+			panic(err)
+		}
+		defer s2.Close()
+		var mu sync.Mutex
+		var wg sync.WaitGroup
+		wg.Add(1)
+		go func() {
+			defer wg.Done()
+			buf := make([]byte, 4096)
+			seen := map[uint16]bool{}
+			var client *net.UDPAddr
+			s1.SetReadDeadline(time.Now().Add(3 * time.Second))
+			for !(seen[4] && seen[6]) {
+				n, addr, err := s1.ReadFromUDP(buf)
+				if err != nil {
+					break
+				}
+				q, err := parseQueryMsg(buf[:n])
+				mu.Lock()
+				if err != nil {
+					o.badQuery = err.Error()
+				} else if !seen[q.ID] {
+					o.queries = append(o.queries, q)
+				}
+				mu.Unlock()
+				seen[q.ID] = true
+				client = addr
+			}
+			if client == nil {
+				return
+			}
+			for _, ev := range c.Events {
+				b, _ := hex.DecodeString(ev.Hex)
+				if ev.From == "server" {
+					s1.WriteToUDP(b, client)
+				} else {
+					s2.WriteToUDP(b, client)
+				}
+				time.Sleep(2 * time.Millisecond)
+			}
+			s1.SetReadDeadline(time.Time{})
+			for { // swallow resends until the socket is closed
+				if _, _, err := s1.ReadFromUDP(buf); err != nil {
+					return
+				}
+			}
+		}()
+		lobs := &lookupObs{}
+		tcp := &scriptClient{epoch: time.Now(), conns: c.Conns, obs: lobs}
+		udpClient := direct.NewDirectUDPClient("c17udp", "ip", 1500, conn.DefaultUDPClientListenConfig)
+		server := s1.LocalAddr().(*net.UDPAddr).AddrPort()
+		server = netip.AddrPortFrom(server.Addr().Unmap(), server.Port())
+		r := dns.NewResolver("c17udp", 4, server, tcp, udpClient, zap.NewNop())
+		ctx := context.Background()
+		if c.TimeoutMs > 0 {
+			var cancel context.CancelFunc
+			ctx, cancel = context.WithTimeout(ctx, time.Duration(c.TimeoutMs)*time.Millisecond)
+			defer cancel()
+		}
+		res, err := r.Lookup(ctx, c.Name)
+		s1.Close()
+		s2.Close()
+		wg.Wait()
+		tcp.wg.Wait()
+		st := "ok"
+		if err != nil {
+			st = "fail"
+		} else {
+			for a := range res.A() {
+				b := a.As4()
+				o.a = append(o.a, hex.EncodeToString(b[:]))
+			}
+			for a := range res.AAAA() {
+				b := a.As16()
+				o.aaaa = append(o.aaaa, hex.EncodeToString(b[:]))
+			}
+		}
+		q := "-"
+		tcp.mu.Lock()
+		if len(lobs.Dials) > 0 {
+			var xs []string
+			for _, d := range lobs.Dials {
+				s := ""
+				for _, x := range d {
+					s += fmt.Sprint(x.ID)
+				}
+				xs = append(xs, s)
+			}
+			q = strings.Join(xs, "/")
+		}
+		if lobs.BadQuery != "" {
+			o.badQuery = lobs.BadQuery
+		}
+		tcp.mu.Unlock()
+		o.line = fmt.Sprintf("%s a=%s aaaa=%s q=%s", st, showList(o.a), showList(o.aaaa), q)
+	})
+	return
+}
+
+func (c UDPCase) modelLines() []string {
+	var sb strings.Builder
+	fmt.Fprintf(&sb, "dns lookup 0 %s", c.Name)
+	for _, ev := range c.Events {
+		b, _ := hex.DecodeString(ev.Hex)
+		from := "0"
+		if ev.From == "server" {
+			from = "1"
+		}
+		fmt.Fprintf(&sb, " ud:0:%s:%s", from, describe(b).wireToken())
+	}
+	sb.WriteString(" us")
+	if c.Class == "B" {
+		sb.WriteString(" C D") // the context has expired when TCP is tried: the dial fails
+	} else {
+		dc := DNSCase{Lookups: []LookupSpec{{Name: c.Name, Conns: c.Conns}}}
+		l := dc.lines(nil)[1]
+		if i := strings.Index(l, " C"); i >= 0 {
+			sb.WriteString(l[i:])
+		}
+	}
+	return []string{"dns new 4 1 1", sb.String()}
+}
+
+func canonUDPModel(s string) string {
+	f := strings.Fields(s)
+	if len(f) < 6 {
+		return s
+	}
+	switch f[0] {
+	case "hit", "fresh", "stale":
+		f[0] = "ok"
+	}
+	return strings.Join([]string{f[0], f[1], f[2], f[5]}, " ")
+}
+
+func genUDPCase(r *common.Rng, class string) UDPCase {
+	g := &genCtx{r: r, name: "u.test"}
+	c := UDPCase{Engine: "dnsudp", Class: class, Name: g.name}
+	f1, f2 := uint16(4), uint16(6)
+	if r.Bool() {
+		f1, f2 = 6, 4
+	}
+	ev := func(from string, b []byte) { c.Events = append(c.Events, UDPEvSpec{from, hex.EncodeToString(b)}) }
+	wrong := func() {
+		for n := r.Intn(3); n > 0; n-- {
+			if r.Chance(2, 3) {
+				ev("other", g.goodMsg(common.Pick(r, []uint16{4, 6}))) // a perfectly valid answer, from the wrong address
+			} else {
+				ev("other", g.oddMsg())
+			}
+		}
+	}
+	rejected := func(fam uint16) []byte { // rejected by any resolver while family `fam` is open
+		s := MsgSpec{ID: fam, Resp: true, RA: true, QType: 1, Answers: g.answers(fam, false)}
+		if fam == 6 {
+			s.QType = 28
+		}
+		switch r.Intn(6) {
+		case 0:
+			s.ID = common.Pick(r, []uint16{0, 5, 7, 0x0400, 65535})
+		case 1:
+			s.Resp = false
+		case 2:
+			s.RA = false
+		case 3:
+			s.RCode = common.Pick(r, []int{6, 9, 15})
+		case 4:
+			return r.Bytes(common.Pick(r, []int{1, 5, 11}))
+		default:
+			b := buildMsg(g.name, s)
+			return b[:12+r.Intn(8)] // header only / cut inside the question
+		}
+		return buildMsg(g.name, s)
+	}
+	truncated := func(fam uint16) []byte {
+		s := MsgSpec{ID: fam, Resp: true, RA: true, TC: true, QType: 1, Answers: g.answers(fam, false)}
+		if fam == 6 {
+			s.QType = 28
+		}
+		return buildMsg(g.name, s)
+	}
+	wrong()
+	first := r.Chance(2, 3)
+	if first {
+		ev("server", g.goodMsg(f1))
+		wrong()
+	}
+	tcpOK := []ConnSpec{{Frames: []FrameSpec{{Hex: hex.EncodeToString(g.goodMsg(4))}, {Hex: hex.EncodeToString(g.goodMsg(6))}}, End: "close"}}
+	switch class {
+	case "A":
+		c.TimeoutMs = 8000
+		switch r.Intn(3) {
+		case 0:
+			if !first {
+				ev("server", g.goodMsg(f1))
+			}
+			ev("server", g.goodMsg(f2)) // done over UDP
+			c.Conns = tcpOK
+		case 1:
+			ev("server", truncated(f2))
+			c.Conns = tcpOK
+		default:
+			ev("server", rejected(f2))
+			c.Conns = tcpOK
+		}
+		if r.Chance(1, 5) {
+			c.Conns = []ConnSpec{{DialFail: true}}
+		}
+		wrong() // after the loop has ended: never seen
+	case "B":
+		c.TimeoutMs = 1500
+	case "C":
+		c.Conns = tcpOK
+	}
+	return c
+}
 
 func evalUDPCase(c UDPCase, o *common.Options, rep *common.Report, drv *common.Driver) error {
+	return evalUDPCases([]UDPCase{c}, o, rep, drv)
+}
+
+// evalUDPCases: model answers first (one driver), implementations in parallel (real time), report in order.
+func evalUDPCases(cases []UDPCase, o *common.Options, rep *common.Report, drv *common.Driver) error {
+	models := make([]string, len(cases))
+	if drv != nil {
+		for i, c := range cases {
+			mo, err := drv.Batch(c.modelLines())
+			if err != nil {
+				return err
+			}
+			models[i] = canonUDPModel(mo[1])
+		}
+	}
+	obss := make([]udpObs, len(cases))
+	pans := make([]any, len(cases))
+	sem := make(chan struct{}, 8)
+	var wg sync.WaitGroup
+	for i := range cases {
+		wg.Add(1)
+		sem <- struct{}{}
+		go func(i int) {
+			defer wg.Done()
+			defer func() { <-sem }()
+			for attempt := 0; attempt < 2; attempt++ {
+				obss[i], pans[i] = runUDPImpl(cases[i])
+				if pans[i] != nil || models[i] == "" || obss[i].line == models[i] {
+					break
+				}
+			}
+		}(i)
+	}
+	wg.Wait()
+	for i, c := range cases {
+		reportUDP(c, obss[i], pans[i], models[i], rep)
+	}
 	return nil
+}
+
+func reportUDP(c UDPCase, obs udpObs, pan any, model string, rep *common.Report) {
+	rep.Case("udp "+obs.line+" "+fmt.Sprint(len(c.Events)), true)
+	rep.Count("udp class=" + c.Class)
+	if pan != nil {
+		rep.Fail(common.OracleFailure{Engine: "dnsudp", Key: "udp:resolver-panic", Case: c, Detail: fmt.Sprint(pan)})
+		return
+	}
+	if model != "" && obs.line != model {
+		rep.Diverge(common.Divergence{Engine: "dnsudp", Case: c, Impl: obs.line, Model: model, Note: "twice in a row"})
+	}
+	// oracle: addresses only from datagrams of the configured server (ids 4/6, responses) or the TCP frames
+	legit, wrongOnly := map[string]bool{}, map[string]bool{}
+	collect := func(b []byte, into map[string]bool) {
+		d := describe(b)
+		if d.Garbage || (d.ID != 4 && d.ID != 6) || !d.Resp {
+			return
+		}
+		for _, a := range d.Answers {
+			if a.Type == 1 || a.Type == 28 {
+				into[a.Addr] = true
+			}
+		}
+	}
+	for _, ev := range c.Events {
+		b, _ := hex.DecodeString(ev.Hex)
+		if ev.From == "server" {
+			collect(b, legit)
+		} else {
+			collect(b, wrongOnly)
+		}
+	}
+	for _, cs := range c.Conns {
+		for _, f := range cs.Frames {
+			b, _ := hex.DecodeString(f.Hex)
+			collect(b, legit)
+		}
+	}
+	for _, a := range append(append([]string{}, obs.a...), obs.aaaa...) {
+		if !legit[a] {
+			key := "udp:foreign-address"
+			if wrongOnly[a] {
+				key = "udp:wrong-source-used"
+			}
+			rep.Fail(common.OracleFailure{Engine: "dnsudp", Key: key, Case: c, Detail: fmt.Sprintf("returned address %s never came from the configured server: %s", a, obs.line)})
+			break
+		}
+	}
+	// whenever UDP was truncated / unusable / unanswered and the TCP upstream answers both queries, the lookup succeeds
+	if (c.Class == "A" || c.Class == "C") && len(c.Conns) == 1 && !c.Conns[0].DialFail && strings.HasPrefix(obs.line, "fail") {
+		rep.Fail(common.OracleFailure{Engine: "dnsudp", Key: "udp:failure-despite-answers", Case: c, Detail: "upstream answers both queries (over UDP, or over TCP after a truncated/unusable/missing UDP answer), Lookup failed: " + obs.line})
+	}
+	if obs.badQuery != "" {
+		rep.Fail(common.OracleFailure{Engine: "dnsudp", Key: "udp:bad-query", Case: c, Detail: obs.badQuery})
+	}
+	for _, q := range obs.queries {
+		if !((q.ID == 4 && q.Type == 1) || (q.ID == 6 && q.Type == 28)) || q.Name != c.Name+"." || !q.RD {
+			rep.Fail(common.OracleFailure{Engine: "dnsudp", Key: "udp:bad-query", Case: c, Detail: fmt.Sprintf("unexpected UDP query %+v", q)})
+		}
+	}
+	rep.TracesValidated++
 }
